@@ -43,7 +43,7 @@ def run(tier):
         for n in range(1, ncov + 1):
             jobs.append(dict(base, harness="VerifC01Coverage", params={"sys": sys, "n": n}, max_witnesses=2, witness_every=100))
     EXT = {3: ("Maven", 20), 6: ("PyPI", 24), 7: ("RubyGems", 17)}
-    QUICK_T = {3: [2, 5, 6, 8], 6: [1, 5, 10, 13, 19], 7: [1, 5, 6, 9]}
+    QUICK_T = {3: [2, 5, 8], 6: [1, 5, 10, 13, 19], 7: [1, 5, 6, 9]}
     for sys, (_, nt) in EXT.items():
         ts = QUICK_T[sys] if tier == "quick" else list(range(nt))
         for ta, tb, tc in itertools.product(ts, repeat=3):
